@@ -132,16 +132,34 @@ def run(chk):
             # replay the previous table with exactly one option flipped (a result cached across calls would be stale here)
             pass
         use = [c for c in std_cols if rng.random() < 0.75] or ["CDR3B"]
+        forced = {0: "swap", 2: "chain", 4: "swap", 6: "chain", 8: "multi"}.get(t)      # every run sees each mapper shape
+        if forced:
+            use = sorted(set(use) | {"CDR3A", "CDR3B", "TRBV"}, key=std_cols.index)
         nrow = rng.randint(1, 6)
         data = {c: [rng.choice(values[c]) for _ in range(nrow)] for c in use}
         data["clone_count"] = [rng.randint(1, 9) for _ in range(nrow)]
         data["note"] = [rng.choice(["x", None, "TRAV1-1*01"]) for _ in range(nrow)]
-        df = pd.DataFrame(data, index=rng.sample(range(100), nrow))
+        # row labels: unique in any order, or repeated (tables concatenated without ignore_index) - cells are cells either way
+        idx = rng.sample(range(100), nrow) if rng.random() < 0.65 else [rng.randrange(max(1, nrow // 2)) for _ in range(nrow)]
+        df = pd.DataFrame(data, index=idx)
         mapper = None
-        if rng.random() < 0.5 and use:
+        mk = {"swap": 0.5, "chain": 0.6, "multi": 0.75}.get(forced, rng.random())
+        if mk < 0.4 and use:
             old = rng.choice(use)
             df = df.rename(columns={old: "my_" + old.lower()})
             mapper = {"my_" + old.lower(): old}
+        elif mk < 0.55 and "CDR3A" in use and "CDR3B" in use:
+            # a swap: the renaming is ONE simultaneous substitution of column names, not a sequence of renames
+            mapper = {"CDR3A": "CDR3B", "CDR3B": "CDR3A"} if rng.random() < 0.5 else {"CDR3B": "CDR3A", "CDR3A": "CDR3B"}
+        elif mk < 0.7 and "TRBV" in use:
+            # a chain: one entry's target is another entry's source
+            df = df.rename(columns={"TRBV": "v_call"})
+            df["TRBV"] = [rng.choice(["free text", "TRBV9", None]) for _ in range(nrow)]
+            mapper = {"v_call": "TRBV", "TRBV": "TRBV_freetext"} if rng.random() < 0.5 else {"TRBV": "TRBV_freetext", "v_call": "TRBV"}
+        elif mk < 0.8 and len(use) >= 2:
+            a_, b_ = rng.sample(use, 2)
+            df = df.rename(columns={a_: "col_" + a_, b_: "col_" + b_})
+            mapper = {"col_" + a_: a_, "col_" + b_: b_, "absent": "also_absent"}
         opts = dict(standardize=rng.random() < 0.8, species=rng.choice(["HomoSapiens", "MusMusculus"]),
                     tcr_enforce_functional=rng.random() < 0.5, tcr_precision=rng.choice(["gene", "allele"]),
                     mhc_precision=rng.choice(["gene", "protein", "allele"]), strict_cdr3_standardization=rng.random() < 0.5,
